@@ -133,8 +133,21 @@ def install_behaviour(uni):
     evalno = uni.evalno
 
     def consumed_terms(st, j):
+        """what j reads from each direct upstream -- the *materialised* product, not what the engine reports:
+        an Ephemeral / Always upstream only has a product if it was executed successfully in this evaluation (None = the
+        input is missing: j's output is then arbitrary); an Output upstream that was not executed is read from its result
+        file as it lies on disk"""
         cons = dict(dict(st.dv.consumed).get(j, ()))
-        return [cons.get(u) for u in uni.ups[j]]
+        okd = st.dv.ok_dict()
+        out = []
+        for u in uni.ups[j]:
+            if u in okd:
+                out.append(okd[u])
+            elif uni.kind[u] == 'Output' and getattr(uni, 'file0', {}).get(u) is not None and u not in st.dv.failed:
+                out.append(uni.file0[u])
+            else:
+                out.append(None)
+        return out
 
     def output_term(ex, st, j):
         if uni.kind[j] == 'Always':
